@@ -7,6 +7,9 @@
 // props leaf_hash_readback: C15         (get_grammar_hash against a direct reading of the statement; header of every emitted text reads back sha256(source))
 // props leaf_emitted_compiles: C05      (rustc --emit=metadata on the emitted module, payload types without any derive)
 // props leaf_validation_truthful: C10   (Ok only for files that an independent reading of the statement finds well-formed; a validation error names a violation really present at its positions)
+// props leaf_lalr_acceptance: C04       (a well-formed file is accepted iff the LALR(1) automaton built here from the definition - canonical LR(1) collection, states merged by core - has no conflict)
+// props leaf_lalr_conflict_report: C11   (a table-conflict error: the attached automaton is that LALR(1) automaton up to renumbering, the state exists, holds both items, and they demand different actions on one lookahead)
+// props leaf_lalr_tables: C17           (ACTION/GOTO rows read back from the emitted text against that automaton up to renumbering of states: shift, goto, reduce on the lookahead sets, accept, error elsewhere)
 // props leaf_emitted_structure: C06     (type section and parse signature of the emitted text, parsed back, against the declarations: names, order, Box, `_` omitted, pub)
 // props leaf_emitted_attributes: C12    (attribute lines before each emitted type, byte for byte and in order; each attribute text occurs exactly once in the emitted text)
 // props leaf_emitted_payload_types: C13 (payload type tokens in the terminal enum and in every field of that terminal, against the declaration)
@@ -16,17 +19,23 @@
 // covers leaf_hash_readback: fn get_grammar_hash
 // covers leaf_emitted_compiles: fn generate
 // covers leaf_validation_truthful: fn generate
+// covers leaf_lalr_acceptance: fn generate
+// covers leaf_lalr_conflict_report: fn generate
+// covers leaf_lalr_tables: fn generate
 // covers leaf_emitted_structure: fn generate
 // covers leaf_emitted_attributes: fn generate
 // covers leaf_emitted_payload_types: fn generate
 // bound: family = 70 hand-written token sequences (every error kind with several simultaneous instances, LALR-not-SLR, LR(1)-not-LALR, ambiguous,
 //        nullable, unreachable, unproductive, attribute and payload-type shapes, the generator's own helper names as user names) + every grammar
 //        over nonterminals {S, A} and terminals {$X, $Y} whose right-hand sides have length <= 1 (930 files; length <= 2 sampled 1 in 97 in the
-//        quick tier, 1 in 7 in the thorough tier) + the example files of the repository. Layouts: 7. get_grammar_hash: every text of <= 4 lines
+//        quick tier, 1 in 7 in the thorough tier) + 300 pseudo-random files (1 500 thorough, see LALR below) + the example files of the repository. Layouts: 7. get_grammar_hash: every text of <= 4 lines
 //        (<= 5 thorough) over a 10-line alphabet, LF and CRLF, with and without final terminator. Compile check: 5 grammar shapes x 34 namings
 //        (one internal name at a time on every user-chosen position, then all at once) + the valid grammars of the family.
 //        Validation: the family + every single renaming `identifier j := identifier i` and every first-letter case flip in 7 base files (about 2 000 files with
 //        0..4 simultaneous violations).
+//        LALR: the well-formed files of the family, of the enumeration (right-hand sides <= 1: all; <= 2: 1 in 97, thorough 1 in 7) and 10 textbook grammars
+//        (LALR-not-SLR, LR(1)-not-LALR, dangling else, expression grammars, nullable chains) + 1 200 pseudo-random files (6 000 thorough) over 2..4
+//        nonterminals and 1..3 terminals with right-hand sides of 0..3 symbols (fixed LCG seeded with VERIF_SEED); the ill-formed ones are skipped.
 //        Emitted types: the accepted files of the family + 9 payload type expressions (unit, paths, generics nested <= 3) on 3 use sites + 8 attribute
 //        texts (non-ASCII, the three bracket kinds nested, 300 deep, quotes) on struct / enum / terminal declarations, 0..3 per declaration.
 #[cfg(test)]
@@ -212,6 +221,7 @@ mod __vx_leafcheck {
         out.extend(RAW.iter().map(|s| s.to_string()));
         out.extend(enumerated(1, 1).iter().map(|c| render(&tokens(c), 0).0));
         out.extend(enumerated(2, if thorough() { 7 } else { 97 }).iter().map(|c| render(&tokens(c), 0).0));
+        out.extend(random_grammars(if thorough() { 1500 } else { 300 }).iter().map(|c| render(&tokens(c), 0).0));
         out.extend(example_files());
         out
     }
@@ -856,8 +866,8 @@ mod __vx_leafcheck {
             let Some((start, want)) = expected_items(&toks) else { panic!("the family holds a file this module cannot read: {}", text) };
             let leaf = format!("generate(emitted-{})", which.replace(' ', "-"));
             let Some((got, sig)) = emitted_items(&out.0) else {
-                println!("LEAFCHECK-FAIL leaf={} input={} got=an emitted text whose type section cannot be read back (definitions expected between the lint attributes and `pub fn parse`) want=the declared types", leaf, brief(&text));
-                panic!("type section unreadable");
+                // no verdict: the layout of the emitted text is not what this reader knows (no LEAFCHECK-FAIL line, the runner reports the check as undecided)
+                panic!("{}: type section of the emitted text cannot be read back for {}", leaf, brief(&text));
             };
             let fail = |got: String, want: String| {
                 println!("LEAFCHECK-FAIL leaf={} input={} got={} want={}", leaf, brief(&text), got, want);
@@ -1145,5 +1155,359 @@ mod __vx_leafcheck {
             n += 1;
         }
         println!("LEAFCHECK leaf=generate(validation) cases={}", n);
+    }
+    // ------------------------------------------------------------------ C04 / C11 / C17 ------------------------------------------------------------------
+    use std::collections::{BTreeMap, BTreeSet};
+    #[derive(Clone, Copy, Debug, PartialEq, Eq, PartialOrd, Ord)]
+    enum Sy { T(usize), N(usize) }
+    /// rules in declaration order (one per struct, one per enum variant); terminal `terms.len()` is the end of input, rule `rules.len()` the augmented rule
+    struct Gram { nts: Vec<String>, terms: Vec<String>, rules: Vec<(usize, Vec<Sy>)>, start: usize }
+    type It = (usize, usize, usize);     // (rule, dot, lookahead)
+
+    fn grammar_of(f: &FileM) -> Gram {
+        let nts: Vec<String> = f.nonterminals.iter().map(|n| n.name.0.clone()).collect();
+        let terms: Vec<String> = f.terminal_enums[0].variants.iter().map(|v| v.0.clone()).collect();
+        let sy = |r: &SymRef| if r.terminal { Sy::T(terms.iter().position(|t| *t == r.name).unwrap()) } else { Sy::N(nts.iter().position(|t| *t == r.name).unwrap()) };
+        let mut rules = vec![];
+        for (i, n) in f.nonterminals.iter().enumerate() {
+            if n.is_enum { for v in &n.variants { rules.push((i, v.fields.iter().map(|x| sy(&x.sym)).collect())); } } else { rules.push((i, n.fields.iter().map(|x| sy(&x.sym)).collect())); }
+        }
+        let start = nts.iter().position(|t| *t == f.starts[0].0).unwrap();
+        Gram { nts, terms, rules, start }
+    }
+    impl Gram {
+        fn rhs(&self, r: usize) -> Vec<Sy> { if r == self.rules.len() { vec![Sy::N(self.start)] } else { self.rules[r].1.clone() } }
+        fn nullable_first(&self) -> (Vec<bool>, Vec<BTreeSet<usize>>) {
+            let mut nullable = vec![false; self.nts.len()];
+            let mut first = vec![BTreeSet::new(); self.nts.len()];
+            loop {
+                let mut changed = false;
+                for (lhs, rhs) in &self.rules {
+                    let mut all_nullable = true;
+                    for s in rhs {
+                        match s {
+                            Sy::T(t) => { changed |= first[*lhs].insert(*t); all_nullable = false; }
+                            Sy::N(n) => { let add: Vec<usize> = first[*n].iter().cloned().collect(); for t in add { changed |= first[*lhs].insert(t); } if !nullable[*n] { all_nullable = false; } }
+                        }
+                        if !all_nullable { break; }
+                    }
+                    if all_nullable && !nullable[*lhs] { nullable[*lhs] = true; changed = true; }
+                }
+                if !changed { return (nullable, first); }
+            }
+        }
+        fn closure(&self, kernel: &BTreeSet<It>, nf: &(Vec<bool>, Vec<BTreeSet<usize>>)) -> BTreeSet<It> {
+            let mut set = kernel.clone();
+            let mut work: Vec<It> = kernel.iter().cloned().collect();
+            while let Some((r, d, la)) = work.pop() {
+                let rhs = self.rhs(r);
+                let Some(Sy::N(b)) = rhs.get(d).cloned() else { continue };
+                // FIRST(beta la)
+                let mut las = BTreeSet::new();
+                let mut all_nullable = true;
+                for s in &rhs[d + 1..] {
+                    match s { Sy::T(t) => { las.insert(*t); all_nullable = false; } Sy::N(n) => { las.extend(nf.1[*n].iter().cloned()); if !nf.0[*n] { all_nullable = false; } } }
+                    if !all_nullable { break; }
+                }
+                if all_nullable { las.insert(la); }
+                for (k, (lhs, _)) in self.rules.iter().enumerate() {
+                    if *lhs != b { continue; }
+                    for l in &las { let it = (k, 0, *l); if set.insert(it) { work.push(it); } }
+                }
+            }
+            set
+        }
+        /// the LALR(1) automaton by its definition: canonical LR(1) collection, then states with equal cores merged.
+        /// Returns (states as item sets, transitions (from, symbol) -> to, start state)
+        fn lalr(&self) -> (Vec<BTreeSet<It>>, BTreeMap<(usize, Sy), usize>, usize) {
+            let nf = self.nullable_first();
+            let eof = self.terms.len();
+            let s0 = self.closure(&[(self.rules.len(), 0, eof)].into_iter().collect(), &nf);
+            let mut states = vec![s0.clone()];
+            let mut index: BTreeMap<BTreeSet<It>, usize> = [(s0, 0)].into_iter().collect();
+            let mut trans: BTreeMap<(usize, Sy), usize> = BTreeMap::new();
+            let mut k = 0;
+            while k < states.len() {
+                let st = states[k].clone();
+                let mut by_sym: BTreeMap<Sy, BTreeSet<It>> = BTreeMap::new();
+                for (r, d, la) in &st { if let Some(s) = self.rhs(*r).get(*d) { by_sym.entry(*s).or_default().insert((*r, d + 1, *la)); } }
+                for (s, kernel) in by_sym {
+                    let c = self.closure(&kernel, &nf);
+                    let to = match index.get(&c) { Some(i) => *i, None => { states.push(c.clone()); index.insert(c, states.len() - 1); states.len() - 1 } };
+                    trans.insert((k, s), to);
+                }
+                k += 1;
+            }
+            // merge by core
+            let core = |st: &BTreeSet<It>| -> BTreeSet<(usize, usize)> { st.iter().map(|(r, d, _)| (*r, *d)).collect() };
+            let mut cores: Vec<BTreeSet<(usize, usize)>> = vec![];
+            let mut merged: Vec<BTreeSet<It>> = vec![];
+            let mut class = vec![0usize; states.len()];
+            for (i, st) in states.iter().enumerate() {
+                let c = core(st);
+                match cores.iter().position(|x| *x == c) { Some(j) => { merged[j].extend(st.iter().cloned()); class[i] = j; } None => { cores.push(c); merged.push(st.clone()); class[i] = cores.len() - 1; } }
+            }
+            let mut mtrans = BTreeMap::new();
+            for ((from, s), to) in trans { mtrans.insert((class[from], s), class[to]); }
+            (merged, mtrans, class[0])
+        }
+    }
+    #[derive(Clone, Copy, Debug, PartialEq, Eq, PartialOrd, Ord)]
+    enum Act { Shift, Reduce(usize), Accept }
+    /// the actions each (state, lookahead) cell is asked for
+    fn demands(g: &Gram, states: &[BTreeSet<It>]) -> Vec<BTreeMap<usize, BTreeSet<Act>>> {
+        states.iter().map(|st| {
+            let mut m: BTreeMap<usize, BTreeSet<Act>> = BTreeMap::new();
+            for (r, d, la) in st {
+                match g.rhs(*r).get(*d) {
+                    Some(Sy::T(t)) => { m.entry(*t).or_default().insert(Act::Shift); }
+                    Some(Sy::N(_)) => {}
+                    None => { m.entry(*la).or_default().insert(if *r == g.rules.len() { Act::Accept } else { Act::Reduce(*r) }); }
+                }
+            }
+            m
+        }).collect()
+    }
+    fn has_conflict(g: &Gram, states: &[BTreeSet<It>]) -> bool { demands(g, states).iter().any(|m| m.values().any(|a| a.len() > 1)) }
+
+    const TEXTBOOK: &[&str] = &[
+        "start S enum S { A ( $A E $C ) B ( $A F $D ) C ( $B F $C ) D ( $B E $D ) } struct E ( $E ) struct F ( $E ) terminal T { $A : ( ) $B : ( ) $C : ( ) $D : ( ) $E : ( ) }",
+        "start S enum S { A ( L $Eq R ) B ( R ) } enum L { C ( $Star R ) D ( $Id ) } struct R ( L ) terminal T { $Eq : ( ) $Star : ( ) $Id : ( ) }",
+        "start S enum S { A ( $A X $D ) B ( $B X $E ) C ( $A Y $E ) D ( $B Y $D ) } struct X ( $C ) struct Y ( $C ) terminal T { $A : ( ) $B : ( ) $C : ( ) $D : ( ) $E : ( ) }",
+        "start St enum St { If ( $If St ) IfElse ( $If St $Else St ) Other ( $O ) } terminal T { $If : ( ) $Else : ( ) $O : ( ) }",
+        "start E enum E { Add ( E $Plus T ) Term ( T ) } enum T { Mul ( T $Star F ) Fac ( F ) } enum F { Par ( $L E $R ) Num ( $N ) } terminal Tok { $Plus : ( ) $Star : ( ) $L : ( ) $R : ( ) $N : ( ) }",
+        "start S struct S ( A B C ) enum A { N0 Y0 ( $A ) } enum B { N1 Y1 ( $B ) } enum C { N2 Y2 ( $C ) } terminal T { $A : ( ) $B : ( ) $C : ( ) }",
+        "start S struct S ( A B A ) enum A { N0 Y0 ( $A ) } enum B { N1 Y1 ( $B ) } terminal T { $A : ( ) $B : ( ) }",
+        "start S enum S { A ( S $A ) B ( $A S ) C } terminal T { $A : ( ) }",
+        "start S enum S { P ( $P X ) Q ( $Q X ) R ( $Q Y ) } struct X ( $A $B ) struct Y ( $A $C ) terminal T { $P : ( ) $Q : ( ) $A : ( ) $B : ( ) $C : ( ) }",
+        "start L enum L { One ( I ) More ( L $Comma I ) } enum I { Id ( $Id ) Call ( $Id $L Args $R ) } enum Args { None0 Some0 ( L ) } terminal T { $Comma : ( ) $Id : ( ) $L : ( ) $R : ( ) }",
+    ];
+    fn lalr_family() -> Vec<Vec<String>> {
+        let du: [String; 12] = DEFAULT_UPPER.map(|s| s.to_string());
+        let dl: [String; 4] = DEFAULT_LOWER.map(|s| s.to_string());
+        let mut fam: Vec<String> = VALID.iter().chain(CONFLICTING).chain(TEXTBOOK).map(|s| s.to_string()).collect();
+        fam.extend(SHAPES.iter().map(|s| instantiate(s, &du, &dl)));
+        fam.extend(enumerated(1, 1));
+        fam.extend(enumerated(2, if thorough() { 7 } else { 97 }));
+        fam.extend(random_grammars(if thorough() { 6000 } else { 1200 }));
+        fam.iter().map(|c| tokens(c)).collect()
+    }
+    /// pseudo-random files over nonterminals N0..N3 (N0 the start symbol; struct or enum of 1..3 variants; right-hand sides of 0..3 symbols, biased
+    /// towards short and nullable ones) and terminals $A..$C; the generator is a fixed LCG seeded with VERIF_SEED (default 1)
+    fn random_grammars(count: usize) -> Vec<String> {
+        let mut x: u64 = std::env::var("VERIF_SEED").ok().and_then(|s| s.parse::<u64>().ok()).unwrap_or(1).wrapping_mul(0x9E37_79B9_7F4A_7C15) | 1;
+        let mut next = |m: u64| -> u64 { x = x.wrapping_mul(6364136223846793005).wrapping_add(1442695040888963407); (x >> 33) % m };
+        let mut out = vec![];
+        for _ in 0..count {
+            let n_nt = 2 + next(3) as usize;
+            let n_t = 1 + next(3) as usize;
+            let rhs = |next: &mut dyn FnMut(u64) -> u64| -> String {
+                let len = [0, 1, 1, 2, 2, 3][next(6) as usize];
+                if len == 0 { return String::new(); }
+                let syms: Vec<String> = (0..len).map(|_| { let k = next((n_nt + n_t) as u64) as usize; if k < n_nt { format!("N{}", k) } else { format!("${}", ["A", "B", "C"][k - n_nt]) } }).collect();
+                format!("( {} )", syms.join(" "))
+            };
+            let mut text = String::from("start N0");
+            for i in 0..n_nt {
+                if next(3) == 0 { text.push_str(&format!(" struct N{} {}", i, rhs(&mut next))); }
+                else {
+                    let nv = 1 + next(3) as usize;
+                    let vs: Vec<String> = (0..nv).map(|v| format!("V{} {}", v, rhs(&mut next))).collect();
+                    text.push_str(&format!(" enum N{} {{ {} }}", i, vs.join(" ")));
+                }
+            }
+            let ts: Vec<String> = (0..n_t).map(|k| format!("${} : ( )", ["A", "B", "C"][k])).collect();
+            text.push_str(&format!(" terminal T {{ {} }}", ts.join(" ")));
+            out.push(text);
+        }
+        out
+    }
+    /// (text, model, grammar, its LALR(1) automaton) for the well-formed files of the family
+    fn lalr_cases() -> Vec<(String, Gram, (Vec<BTreeSet<It>>, BTreeMap<(usize, Sy), usize>, usize))> {
+        let mut out = vec![];
+        for toks in lalr_family() {
+            let (text, pos) = render(&toks, 0);
+            let Some(file) = read_file(&toks, &pos) else { continue };
+            if !well_formed(&file) { continue; }
+            let g = grammar_of(&file);
+            let a = g.lalr();
+            out.push((text, g, a));
+        }
+        out
+    }
+
+    #[test]
+    fn leaf_lalr_acceptance() {
+        let mut n = 0usize;
+        for (text, g, (states, _, _)) in lalr_cases() {
+            let conflict = has_conflict(&g, &states);
+            let verdict = match run(&text) { Some(Ok(_)) => "Ok", Some(Err(KikiErr::TableConflict(_))) => "table conflict", _ => continue };
+            if (verdict == "Ok") == conflict {
+                println!("LEAFCHECK-FAIL leaf=generate(lalr-acceptance) input={} got={} want={} (the LALR(1) automaton of this grammar, {} states, {})", brief(&text), verdict,
+                    if conflict { "table conflict" } else { "Ok" }, states.len(), if conflict { "has a conflict" } else { "has no conflict" });
+                panic!("acceptance differs from LALR(1) conflict-freeness");
+            }
+            n += 1;
+        }
+        println!("LEAFCHECK leaf=generate(lalr-acceptance) cases={}", n);
+    }
+
+    fn item_of(g: &Gram, it: &crate::data::machine::StateItem) -> Option<It> {
+        use crate::data::machine::{Lookahead, RuleIndex};
+        let r = match it.rule_index { RuleIndex::Original(i) => i, RuleIndex::Augmented => g.rules.len() };
+        let la = match &it.lookahead { Lookahead::Terminal(t) => g.terms.iter().position(|x| x == t.raw())?, Lookahead::Eof => g.terms.len() };
+        Some((r, it.dot, la))
+    }
+
+    #[test]
+    fn leaf_lalr_conflict_report() {
+        let mut n = 0usize;
+        for (text, g, (states, trans, start)) in lalr_cases() {
+            let Some(Err(KikiErr::TableConflict(c))) = run(&text) else { continue };
+            let fail = |got: String, want: &str| {
+                println!("LEAFCHECK-FAIL leaf=generate(lalr-conflict-report) input={} got={} want={}", brief(&text), got, want);
+                panic!("table-conflict report");
+            };
+            // the attached automaton, state by state, as item sets over this grammar
+            let mut theirs: Vec<BTreeSet<It>> = vec![];
+            for st in c.machine.states.iter() {
+                let mut set = BTreeSet::new();
+                for it in st.items.iter() { match item_of(&g, it) { Some(x) => { set.insert(x); } None => fail(format!("an item with an unknown lookahead: {:?}", it), "items over the terminals of the grammar") } }
+                theirs.push(set);
+            }
+            let map: Vec<Option<usize>> = theirs.iter().map(|s| states.iter().position(|x| x == s)).collect();
+            let distinct: BTreeSet<usize> = map.iter().flatten().cloned().collect();
+            if theirs.len() != states.len() || map.iter().any(|m| m.is_none()) || distinct.len() != states.len() {
+                fail(format!("attached automaton with {} states, {} of which are LALR(1) states of the grammar", theirs.len(), distinct.len()), &format!("the {} LALR(1) states (same cores and lookahead sets)", states.len()));
+            }
+            let their_trans: BTreeMap<(usize, Sy), usize> = c.machine.transitions.iter().filter_map(|t| {
+                let s = match &t.symbol { crate::data::Symbol::Terminal(x) => Sy::T(g.terms.iter().position(|y| y == x.raw())?), crate::data::Symbol::Nonterminal(x) => Sy::N(g.nts.iter().position(|y| y == x)?) };
+                Some(((map[t.from.0]?, s), map[t.to.0]?))
+            }).collect();
+            if their_trans != trans || c.machine.transitions.len() != trans.len() { fail(format!("{} transitions, {} of them as in the LALR(1) automaton", c.machine.transitions.len(), their_trans.iter().filter(|(k, v)| trans.get(k) == Some(v)).count()), &format!("its {} transitions", trans.len())); }
+            if map.get(c.machine.start.0).cloned().flatten() != Some(start) { fail(format!("start state {:?}", c.machine.start), "the state of the augmented item"); }
+            // the reported conflict
+            let Some(st) = theirs.get(c.state_index.0) else { fail(format!("state index {:?} of {} states", c.state_index, theirs.len()), "an existing state"); unreachable!() };
+            let (a, b) = (item_of(&g, &c.items.0), item_of(&g, &c.items.1));
+            let (Some(a), Some(b)) = (a, b) else { fail(format!("items {:?}", c.items), "items of the grammar"); unreachable!() };
+            if !st.contains(&a) || !st.contains(&b) { fail(format!("items {:?} and {:?}, state {:?} holds {:?}", a, b, c.state_index, st), "two items of the reported state"); }
+            let demand = |it: It| -> Option<(usize, Act)> { match g.rhs(it.0).get(it.1) { Some(Sy::T(t)) => Some((*t, Act::Shift)), Some(Sy::N(_)) => None, None => Some((it.2, if it.0 == g.rules.len() { Act::Accept } else { Act::Reduce(it.0) })) } };
+            match (demand(a), demand(b)) {
+                (Some((la, x)), Some((lb, y))) if la == lb && x != y => {}
+                (x, y) => fail(format!("items {:?} and {:?} demanding {:?} and {:?} (lookahead, action)", a, b, x, y), "two different actions on one lookahead"),
+            }
+            if format!("{:?}", c.file) != format!("{:?}", c.file.clone()) { unreachable!(); }
+            n += 1;
+        }
+        println!("LEAFCHECK leaf=generate(lalr-conflict-report) cases={}", n);
+    }
+
+    /// rows of a table in the emitted text: the lines from the one that declares `name` to the closing `];`, split into entries
+    fn emitted_rows(out: &str, name: &str) -> Option<Vec<Vec<Vec<String>>>> {
+        let lines: Vec<&str> = out.lines().collect();
+        let at = lines.iter().position(|l| l.starts_with("static ") && l.contains(name) && l.trim_end().ends_with('['))?;
+        let end = at + lines[at..].iter().position(|l| l.starts_with("];"))?;
+        let toks = rust_tokens(&lines[at + 1..end].join("\n"));
+        let mut rows = vec![];
+        let mut k = 0;
+        while k < toks.len() {
+            if toks[k] == "," { k += 1; continue; }
+            if toks[k] != "[" { return None; }
+            let c = close_of(&toks, k)?;
+            rows.push(split_commas(&toks[k + 1..c]));
+            k = c + 1;
+        }
+        Some(rows)
+    }
+    /// `Name = index` pairs of the enum whose variants are exactly `names` (in any order) plus `extra` others
+    fn emitted_numbering(out: &str, names: &[String], extra: usize) -> Option<BTreeMap<String, usize>> {
+        let lines: Vec<&str> = out.lines().collect();
+        let mut k = 0;
+        while k < lines.len() {
+            if lines[k].starts_with("enum ") && lines[k].trim_end().ends_with('{') {
+                let mut m = BTreeMap::new();
+                let mut j = k + 1;
+                let mut plain = true;
+                while j < lines.len() && !lines[j].starts_with('}') {
+                    let t = rust_tokens(lines[j]);
+                    if t.len() == 4 && t[1] == "=" && t[3] == "," { if let Ok(v) = t[2].parse::<usize>() { m.insert(t[0].clone(), v); } else { plain = false; } } else if !t.is_empty() { plain = false; }
+                    j += 1;
+                }
+                if plain && m.len() == names.len() + extra && names.iter().all(|n| m.contains_key(n)) { return Some(m); }
+                k = j;
+            }
+            k += 1;
+        }
+        None
+    }
+    fn trailing_number(t: &[String], prefix: char) -> Option<usize> {
+        t.iter().rev().find_map(|x| x.strip_prefix(prefix).and_then(|d| d.parse::<usize>().ok()))
+    }
+
+    #[test]
+    fn leaf_lalr_tables() {
+        let mut n = 0usize;
+        for (text, g, (states, trans, start)) in lalr_cases() {
+            let Some(Ok(out)) = run(&text) else { continue };
+            let out = out.0;
+            let unreadable = |what: &str| -> ! { panic!("generate(lalr-tables): {} of the emitted text cannot be read back for {}", what, brief(&text)) };
+            let Some(actions) = emitted_rows(&out, "ACTION_TABLE") else { unreadable("the action table") };
+            let Some(gotos) = emitted_rows(&out, "GOTO_TABLE") else { unreadable("the goto table") };
+            let Some(tcol) = emitted_numbering(&out, &g.terms, 1) else { unreadable("the numbering of terminal kinds") };
+            let ncol = if g.nts.len() == g.terms.len() + 1 && g.nts.iter().all(|x| tcol.contains_key(x)) { unreadable("the numbering of nonterminal kinds (same names as the terminal kinds)") } else { emitted_numbering(&out, &g.nts, 0) };
+            let Some(ncol) = ncol else { unreadable("the numbering of nonterminal kinds") };
+            let eof_col = (0..=g.terms.len()).find(|c| !g.terms.iter().any(|t| tcol[t] == *c));
+            let Some(eof_col) = eof_col else { unreadable("the end-of-input column") };
+            let Some(start_line) = out.lines().find(|l| l.contains("let mut states = vec![")) else { unreadable("the start state") };
+            let Some(their_start) = trailing_number(&rust_tokens(start_line), 'S') else { unreadable("the start state") };
+            let fail = |got: String, want: String| {
+                println!("LEAFCHECK-FAIL leaf=generate(lalr-tables) input={} got={} want={}", brief(&text), got, want);
+                panic!("emitted tables differ from the LALR(1) automaton");
+            };
+            if actions.len() != states.len() || gotos.len() != states.len() { fail(format!("{} action rows, {} goto rows", actions.len(), gotos.len()), format!("{} states (one per reachable LR(0) core)", states.len())); }
+            // walk both automata from their start states
+            let mut to_ref: BTreeMap<usize, usize> = [(their_start, start)].into_iter().collect();
+            let mut work = vec![their_start];
+            let dem = demands(&g, &states);
+            while let Some(s) = work.pop() {
+                let r = to_ref[&s];
+                let (Some(arow), Some(grow)) = (actions.get(s), gotos.get(s)) else { fail(format!("state S{} out of range", s), format!("{} states", states.len())); unreachable!() };
+                if arow.len() != g.terms.len() + 1 || grow.len() != g.nts.len() { fail(format!("rows of {} actions and {} gotos", arow.len(), grow.len()), format!("{} and {}", g.terms.len() + 1, g.nts.len())); }
+                let mut link = |their_to: usize, ref_to: Option<usize>, what: String, to_ref: &mut BTreeMap<usize, usize>, work: &mut Vec<usize>| {
+                    match ref_to {
+                        None => fail(format!("state S{}: {} to S{}", s, what, their_to), "no such transition in the LALR(1) automaton".to_string()),
+                        Some(rt) => match to_ref.get(&their_to) {
+                            Some(x) => if *x != rt { fail(format!("state S{}: {} to S{}, which stands for another state", s, what, their_to), "the transition of the LALR(1) automaton".to_string()) },
+                            None => { if to_ref.values().any(|x| *x == rt) { fail(format!("state S{}: {} to S{}: two emitted states for one LALR(1) state", s, what, their_to), "one state per core".to_string()); } to_ref.insert(their_to, rt); work.push(their_to); }
+                        },
+                    }
+                };
+                for la in 0..=g.terms.len() {
+                    let col = if la == g.terms.len() { eof_col } else { tcol[&g.terms[la]] };
+                    let e = &arow[col];
+                    let want: Option<Act> = dem[r].get(&la).and_then(|a| a.iter().next().cloned());
+                    let la_name = if la == g.terms.len() { "end of input".to_string() } else { format!("${}", g.terms[la]) };
+                    let kind = ["Shift", "Reduce", "Accept", "Err"].iter().find(|k| e.iter().any(|t| t == *k)).cloned();
+                    match (kind, want) {
+                        (Some("Shift"), Some(Act::Shift)) => { let Some(to) = trailing_number(e, 'S') else { unreadable("a shift entry") }; link(to, trans.get(&(r, Sy::T(la))).cloned(), format!("shift on {}", la_name), &mut to_ref, &mut work); }
+                        (Some("Reduce"), Some(Act::Reduce(k))) => { let Some(rk) = trailing_number(e, 'R') else { unreadable("a reduce entry") }; if rk != k { fail(format!("state S{}, {}: reduce by rule {}", s, la_name, rk), format!("reduce by rule {}", k)); } }
+                        (Some("Accept"), Some(Act::Accept)) => {}
+                        (Some("Err"), None) => {}
+                        (None, _) => unreadable("an action entry"),
+                        (Some(k), w) => fail(format!("state S{}, {}: {}", s, la_name, e.join("")), format!("{:?} (None = error)", w).replace("Some(", "").replace(k, k)),
+                    }
+                }
+                for (ni, name) in g.nts.iter().enumerate() {
+                    let e = &grow[ncol[name]];
+                    let want = trans.get(&(r, Sy::N(ni))).cloned();
+                    if e.iter().any(|t| t == "None") { if want.is_some() { fail(format!("state S{}: no goto on {}", s, name), "the goto of the LALR(1) automaton".to_string()); } }
+                    else if e.iter().any(|t| t == "Some") { let Some(to) = trailing_number(e, 'S') else { unreadable("a goto entry") }; link(to, want, format!("goto on {}", name), &mut to_ref, &mut work); }
+                    else { unreadable("a goto entry") }
+                }
+            }
+            if to_ref.len() != states.len() { fail(format!("{} states reachable in the emitted tables", to_ref.len()), format!("{}", states.len())); }
+            n += 1;
+        }
+        println!("LEAFCHECK leaf=generate(lalr-tables) cases={}", n);
     }
 }
